@@ -29,3 +29,12 @@ def run(ctx):
     from ..model import src, walk_local
     keys = [src(x.args[0]) for x in walk_local(fc.node) if isinstance(x, ast.Call) and src(x.func) == "self._cachedate.index"]
     ctx.ob("C05.KEY", fc, "the VTIMEZONE lookup cache is keyed by (wall time, fold)", keys == ["(dt, self._fold(dt))"], construct="cache lookup key", detail=str(keys))
+
+    # ---------------------------------------------------------------- C05.ARGS / C05.PRESENCE
+    from ..rules_common import check_call_arguments, check_presence_tests, ARG_SCOPE
+    check_call_arguments(ctx, "C05.ARGS", "C05")
+    from ..rules_common import check_effect_tables
+    check_effect_tables(ctx, "C05")
+    check_presence_tests(ctx, "C05.PRESENCE", classes=ARG_SCOPE.get("C05", []))
+
+
